@@ -194,7 +194,7 @@ def spec_check(case, res):
     started = False
     logged_once = False
     pending = False   # ideal update: a loggee was updated since the previous record
-    late = False      # a loggee write happened after a logger run in the same tick (known defect territory)
+    late = False      # a loggee write happened in the tick of this log's last record (known defect territory)
     ran_this_tick = False
     fields = None
     lastcells = None
@@ -267,7 +267,9 @@ def spec_check(case, res):
                 sh["data"][k] = pyval(v)
             if o == "write" and op[1] in loggee_idx:
                 pending = True
-                if ran_this_tick:
+                # the open known finding needs the write in the SAME tick in which the log wrote its last record
+                # (log.stamp == store.stamp at the write); a write after a run that wrote NOTHING is not it
+                if ran_this_tick and exp and exp[-1][0] == tick:
                     late = True
         elif o == "push":
             shares[op[1]]["deck"].append(op[2])
